@@ -170,6 +170,7 @@ def tree(rng, n, pools=None, max_arity=4, p_unary=0.15, max_chain=3,
 
 LONG = [0]
 LOOKALIKE = [0]
+ATNODES = [0]
 
 
 def maybe_long(rng, n, p=0.004, lo=120, hi=220):
